@@ -11,6 +11,7 @@ use serde_json::{Value as J, json};
 use vrl::compiler::runtime::{Runtime, Terminate};
 use vrl::compiler::verif;
 use vrl::compiler::{TargetValue, TimeZone};
+use bytes::Bytes;
 use vrl::value::{Secrets, Value};
 
 use crate::core::panic_message;
@@ -206,6 +207,7 @@ pub fn worker() {
             "history" => history_case(&case),
             "eval" => eval_case(&case),
             "ddq" => ddq_case(&case),
+            "conv" => conv_case(&case),
             other => json!({"e": "panic", "where": format!("unknown worker job {other}"), "id": 0, "message": ""}),
         };
         let mut o = stdout.lock();
@@ -536,6 +538,41 @@ pub fn eval_case(case: &J) -> J {
         results.insert(name.clone(), r);
     }
     json!({"e": "law", "law": case["law"], "inp": case["inp"], "tz": tzname, "src": case["law"], "r": J::Object(results)})
+}
+
+
+// ---------------------------------------------------------------------------------------------
+// C35: the embedder's `Conversion` API: name -> conversion, text -> value, under several default timezones
+
+pub fn conv_case(case: &J) -> J {
+    use vrl::compiler::conversion::Conversion;
+    let name = case["name"].as_str().unwrap_or("").to_owned();
+    let text: Vec<u8> = match case["text"].get("s") {
+        Some(s) => s.as_str().unwrap_or("").as_bytes().to_vec(),
+        None => case["text"]["c"].as_array().map(|a| a.iter().map(|x| x.as_u64().unwrap_or(0) as u8).collect()).unwrap_or_default(),
+    };
+    let mut by = serde_json::Map::new();
+    for tz in case["tzs"].as_array().into_iter().flatten() {
+        let tzname = tz.as_str().unwrap_or("UTC");
+        let zone = TimeZone::Named(tzname.parse().unwrap_or(chrono_tz::UTC));
+        let r = catch_unwind(AssertUnwindSafe(|| match Conversion::parse(&name, zone) {
+            Err(e) => json!({"k": "unknown", "m": e.to_string()}),
+            Ok(c) => match c.convert::<Value>(Bytes::from(text.clone())) {
+                Err(e) => json!({"k": "err", "m": e.to_string()}),
+                Ok(v) => {
+                    let mut j = json!({"k": "ok", "v": law_json(&v)});
+                    if let Value::Timestamp(t) = &v {
+                        // the instant by plain arithmetic on the epoch count (no calendar involved)
+                        let secs = t.timestamp();
+                        j["inst"] = json!({"days": secs.div_euclid(86400), "sod": secs.rem_euclid(86400), "ns": t.timestamp_subsec_nanos()});
+                    }
+                    j
+                }
+            },
+        }));
+        by.insert(tzname.to_owned(), r.unwrap_or_else(|p| json!({"k": "panic", "m": panic_message(&p)})));
+    }
+    json!({"e": "law", "law": case["law"], "inp": case["inp"], "src": case["law"], "r": J::Object(by)})
 }
 
 // ---------------------------------------------------------------------------------------------
